@@ -66,22 +66,23 @@ class Molecule(BigSMILESbase):
                         other_bd = self._elements[-1].right_terminal
                     else:
                         other_bd = self._elements[-1].bond_descriptors[-1]
-                    if len(pre_stochastic.bond_descriptors) > 0:
-                        found_compatible = False
-                        expected_text = _create_compatible_bond_text(other_bd)
-                        for bd in pre_stochastic.bond_descriptors:
-                            if _create_compatible_bond_text(bd) == expected_text:
-                                found_compatible = True
-                        if not found_compatible:
-                            raise RuntimeError(
-                                f"Token {pre_token} only has incompatible bond descriptors with previous element {str(self._elements[-1])}."
-                            )
                     # Since this isn't standard, we add a bond descriptor here.
-                    else:
+                    if len(pre_stochastic.bond_descriptors) == 0:
                         bond_string = _create_compatible_bond_text(other_bd)
                         pre_token = bond_string + pre_token
                         pre_stochastic = SmilesToken(pre_token, 0, res_id_prefix + res_id_counter)
                         res_id_counter += 1
+                    # The added descriptor takes over a bond symbol the token starts with,
+                    # so it is checked like a written one.
+                    found_compatible = False
+                    expected_text = _create_compatible_bond_text(other_bd)
+                    for bd in pre_stochastic.bond_descriptors:
+                        if _create_compatible_bond_text(bd) == expected_text:
+                            found_compatible = True
+                    if not found_compatible:
+                        raise RuntimeError(
+                            f"Token {pre_token} only has incompatible bond descriptors with previous element {str(self._elements[-1])}."
+                        )
 
             stochastic_text = stochastic_text[stochastic_text.find("{") :].strip()
             end_pos = stochastic_text.find("}") + 1
